@@ -4545,18 +4545,30 @@ theorem request_prov {A : Nat → Attempt → Prop} (rid : Nat) : ∀ (script : 
       generalize drainConn t r = q at pd ⊢
       obtain ⟨s2, o⟩ := q
       cases o <;> exact pd
-    have afterDrainRec : ∀ (t : State) (r : Nat) (rc' : ReqCfg) (rt : Retry), Prov A t →
+    -- drain, then the wait between the attempts (which may raise), then recurse
+    have afterDrainRec : ∀ (t : State) (r : Nat) (w : Option Exc) (rc' : ReqCfg) (rt : Retry), Prov A t →
         Prov A (match drainConn t r with
           | (s, some e) => (s, Result.raised e)
-          | (s, none) => request s rid rc' rt rest).1 := by
-      intro t r rc' rt pt
+          | (s, none) =>
+            match w with
+            | some e => (s, Result.raised e)
+            | none => request s rid rc' rt rest).1 := by
+      intro t r w rc' rt pt
       have pd := drainConn_prov (r := r) pt
       generalize drainConn t r = q at pd ⊢
       obtain ⟨s2, o⟩ := q
       cases o with
       | some e => exact pd
-      | none => exact ih s2 rc' rt pd hA'
+      | none =>
+        cases w with
+        | some e => exact pd
+        | none => exact ih s2 rc' rt pd hA'
     rw [request]
+    -- a failure before the `try:` changes nothing
+    cases preflight rc a with
+    | some e => exact p
+    | none =>
+    dsimp only
     generalize hg : getConn s = res
     obtain ⟨s1, eg⟩ := res
     have p1 : Prov A s1 := by have := (getConn_safe s).prov p; rw [hg] at this; exact this
@@ -4601,7 +4613,7 @@ theorem request_prov {A : Nat → Attempt → Prop} (rid : Nat) : ∀ (script : 
         | some e => exact pp
         | none =>
           dsimp only
-          have fin : ∀ (loc ra : Bool) (status : Nat), Prov A
+          have fin : ∀ (loc ra : Bool) (status : Nat) (w : Option Exc), Prov A
               (if (rc.redirect && isRedirect s3 r loc) = true then
                 match retries.incrementResp with
                 | none =>
@@ -4613,7 +4625,10 @@ theorem request_prov {A : Nat → Attempt → Prop} (rid : Nat) : ∀ (script : 
                 | some retries' =>
                   match drainConn s3 r with
                   | (s, some e) => (s, Result.raised e)
-                  | (s, none) => request s rid (if (status == 303) = true then { rc with methodRetryable := true, isHead := false } else rc) retries' rest
+                  | (s, none) =>
+                    match w with
+                    | some e => (s, Result.raised e)
+                    | none => request s rid (if (status == 303) = true then rc.seeOther else rc.hop) retries' rest
               else if retries.isRetry rc.methodRetryable status ra = true then
                 match retries.incrementResp with
                 | none =>
@@ -4623,21 +4638,24 @@ theorem request_prov {A : Nat → Attempt → Prop} (rid : Nat) : ∀ (script : 
                 | some retries' =>
                   match drainConn s3 r with
                   | (s, some e) => (s, Result.raised e)
-                  | (s, none) => request s rid rc retries' rest
+                  | (s, none) =>
+                    match w with
+                    | some e => (s, Result.raised e)
+                    | none => request s rid rc.hop retries' rest
               else (markReturned s3 r, Result.resp r)).1 := by
-            intro loc ra status
+            intro loc ra status w
             split
             · split
               · split
                 · exact afterDrain _ _ _ pp
                 · exact (markReturned_safe _ _).prov pp
-              · exact afterDrainRec _ _ _ _ pp
+              · exact afterDrainRec _ _ _ _ _ pp
             · split
               · split
                 · exact afterDrain _ _ _ pp
-                · exact afterDrainRec _ _ _ _ pp
+                · exact afterDrainRec _ _ _ _ _ pp
               · exact (markReturned_safe _ _).prov pp
-          exact fin _ _ _
+          exact fin _ _ _ _
 
 theorem closePool_prov {A : Nat → Attempt → Prop} {s : State} (p : Prov A s) : Prov A (closePool s) :=
   (closePool_safe s).prov p
